@@ -47,19 +47,19 @@ chk("C11", "texel (real process) + h_game",
     "refchess position identity (legally capturable e.p. only); Contempt 0; depth-limited searches (no on-demand tablebase)",
     "DESIGN.md section 3 C11")
 chk("C12", "h_tb",
-    "exhaustive runtime sweep + invariant check: every placement x side of each material class probed through the real probeDTM (both storage back ends) and checked against the Bellman equations with an independent move generator; fault injection (stop flag / time limit during generation) followed by hash traffic and probes against the verified table; ASan slice",
+    "exhaustive runtime sweep + invariant check: every placement x side of each material class probed through the real probeDTM (both storage back ends) and checked against the Bellman equations with an independent move generator and compared entry by entry with an independent retrograde solution (h_tb solve, no engine code); fault injection (stop flag / time limit during generation) followed by hash traffic and probes against the verified table; ASan slice",
     "Per swept class the finite input space (all placements, all symmetry images, all sub-materials) is enumerated completely, and a labelling that satisfies the local mate/stalemate/min/max equations everywhere is the exact DTM labelling - so for those classes the check decides exactness, not a sample of it. Quick sweeps the 8 three-men classes + 2 four-men classes (one chosen by seed); thorough sweeps all 44. Abort points are sampled in time, not enumerated.",
     "the mini rules engine inside h_tb.cpp; positions with the side not to move in check are outside the domain (never probed by the search)",
     "DESIGN.md section 3 C12", category="fault_enumeration")
-chk("C13", "texel (real process) + h_tb dumps",
-    "runtime output monitor: UCI scores and played moves of 'go infinite'+stop on <=4-men roots judged against DTM tables verified in the same run",
-    "Held on every root searched (96 quick / 3000 thorough, stratified over classes, half-move clocks, hash sizes, threads, table replacement and generation-abort sequences). Exactness is asserted only inside the 50-move margin; beyond it only what the rules imply.",
-    "oracle tables = h_tb dumps that passed the Bellman sweep in this run; synthetic network",
+chk("C13", "texel (real process) + independent h_tb solution",
+    "runtime output monitor: UCI scores and played moves of 'go infinite'+stop on <=4-men roots judged against an independent retrograde solution of each class (h_tb solve: mini rules engine only, self-checked with the forward Bellman equations in the same run)",
+    "Held on every root searched (448 quick / 12000 thorough, 14 per engine process, stratified over classes incl. one with black mating material, half-move clocks, hash sizes, threads, table replacement and generation-abort sequences). Exactness is asserted only inside the 50-move margin; beyond it only what the rules imply.",
+    "oracle = independent retrograde solution that passed its forward Bellman self-check in this run; synthetic network",
     "DESIGN.md section 3 C13")
-chk("C04", "texel (real process) + refchess solver + h_tb dumps",
-    "runtime output monitor: every positive 'mate N' line, the final best move and final 'mate -N' of completed depth-limited searches judged by exact oracles (DTM tables verified in the same run, exhaustive mate solver up to 3-4 moves, mate-in-one enumeration at every depth 1..14)",
-    "Held on every search run (about 4000 quick / 1e5 thorough); claims no oracle can decide are counted as unchecked in the evidence, never as passes.",
-    "DTM dumps verified by the Bellman sweep in this run; refchess solver ignores draw claims (roots have clock 0, no history); full strength only",
+chk("C04", "texel (real process) + refchess solver + independent h_tb solution",
+    "runtime output monitor: every positive 'mate N' line, the final best move and final 'mate -N' of completed depth-limited searches judged by exact oracles (independent DTM solution self-checked in the same run, exhaustive mate solver up to 3-4 moves, mate-in-one enumeration at every depth 1..14, constructed only-legal-reply checks)",
+    "Held on every search run (about 4900 quick / 1.2e5 thorough); claims no oracle can decide are counted as unchecked in the evidence, never as passes.",
+    "DTM oracle independent of the engine generator, self-checked in this run; refchess solver ignores draw claims (roots have clock 0, no history); full strength only",
     "DESIGN.md section 3 C04")
 chk("C19", "h_bb",
     "runtime invariant monitor: after (almost) every operation of seeded book-building histories the whole graph (negamax, depth, path errors, expansion costs, links, hashToParent) is recomputed from the defining equations by an independent model and compared node by node; save/load compared node by node; ASan slice",
